@@ -16,16 +16,18 @@ class ParallelEvaluator(Evaluator):
     """Evaluates individuals in parallel, each time they are needed."""
 
     def evaluate_async(self, problem: Problem, individuals: Iterable[Individual[Any, Any]]) -> Generator[Individual, Any, Any]:
-        indivs = list(individuals)
+        all_indivs = list(individuals)
+        indivs = [ind for ind in all_indivs if not ind.has_fitness(problem)]  # like SequentialEvaluator: evaluate once
 
         def mapper(ind: Individual) -> Fitness:
             return self.eval_single(problem, ind)
 
         from pathos.multiprocessing import ProcessingPool as Pool  # pyright: ignore
 
-        with Pool(len(indivs)) as pool:
-            fitnesses = pool.map(mapper, indivs)
+        if indivs:
+            with Pool(len(indivs)) as pool:
+                fitnesses = pool.map(mapper, indivs)
             for i, f in zip(indivs, fitnesses):
                 i.set_fitness(problem, f)
                 self.register_evaluation()
-                yield i
+        yield from all_indivs
